@@ -855,6 +855,26 @@ V('M-choice-eoo-probe', ['C01', 'C02', 'C09'], 'A8.probe', BD,
   "                    substrate, asn1Object.componentType.tagMapUnique,\n                    tagSet, length, state, **dict(options, allowEoo=True))")
 
 
+# round 5 of seeded changes (e1..e3): rules added after first contact
+CH = 'pyasn1/type/char.py'
+V('M-real-int-raw', ['C04', 'C02'], 'W.real10in', UN, "            return self.__normalizeBase10((value, 10, 0))", "            return value, 10, 0")
+V('M-wrap-drop-cached', ['C05', 'C11'], 'A12.cache', ST, "            return read_from_cache or None", "            return None")
+V('M-cer-bool-table', ['C08'], 'A3.partial', CD,
+  "        if byte == 0xff:\n            value = 1\n\n        elif byte == 0x00:\n            value = 0\n\n        else:\n            raise error.PyAsn1Error('Unexpected Boolean payload: %s' % byte)",
+  "        value = {0xff: 1, 0x00: 0}[byte]")
+V('M-char-surrogatepass', ['C10', 'C08'], 'C10.strictdec', CH,
+  "                elif isinstance(value, bytes):\n                    return value.decode(self.encoding)",
+  "                elif isinstance(value, bytes):\n                    return value.decode(self.encoding, 'surrogatepass')")
+V('M-bits-form-outer', ['C13', 'C09'], 'A6.form', BD, "        if tagSet[0].tagFormat == tag.tagFormatSimple:  # XXX what tag to check?", "        if tagSet[-1].tagFormat == tag.tagFormatSimple:")
+V('M-empty-is-consistent', ['C14', 'C10'], 'C14.consult', UN,
+  "        if self._componentValues is noValue:\n            return True\n\n        mapping = {}\n\n        for idx, value in self._componentValues.items():",
+  "        if self._componentValues is noValue:\n            return True\n\n        if not self._componentValues:\n            return False\n\n        mapping = {}\n\n        for idx, value in self._componentValues.items():")
+V('M-items-skip-absent', ['C17'], 'C17.items', UN,
+  "            if self._componentTypeLen:\n                yield self.componentType[idx].name, self[idx]",
+  "            if self._componentTypeLen:\n                component = self.getComponentByPosition(idx, instantiate=False)\n                if component is not noValue:\n                    yield self.componentType[idx].name, component")
+V('M-offset-wrapped', ['C20'], 'A11.tz', US, "            self.__offset = datetime.timedelta(minutes=offset)", "            offset = (offset + 720) % 1440 - 720\n            self.__offset = datetime.timedelta(minutes=offset)")
+
+
 if __name__ == '__main__':
     from sa import props
     pids = sys.argv[1:] or sorted(props.PROPS)
